@@ -280,6 +280,23 @@ CHECKS = {
         note=COMMON_NOTE + " numpy.linalg.inv / eig enter as hypotheses (residual-checked per instance); argsort/searchsorted/cumsum/interp/exp contracts assumed; float64-vs-real gap bridged by the float128 oracle; crps and pdf are outside the property; real-number axioms and funext in Print Assumptions.",
         technique="Coq proof (Cauchy-Schwarz window soundness, weighted statistics and index-view bookkeeping of a list/real model) + differential execution against a float128 oracle and vm_compute on ranks",
         design="5/C18"),
+    "C07": dict(
+        text=("coq/gen/geodesy.v (sind/cosd/tand, ellipsoid radii, cart2geocentric, geocentric2cart, geodetic2cart, "
+              "great_circle_distance, the ellipsoid table) is REGENERATED from typhon/geodesy.py on every run; 17 theorems over the "
+              "reals for all ellipsoids with 0 < a, 0 <= e < 1 (the generated six-row table is proved admissible): spherical <-> "
+              "cartesian mutually inverse (poles included); points on the ellipsoid have the radii given by ellipsoid_r_geodetic / "
+              "ellipsoid_r_geocentric and satisfy the ellipsoid equation; the true geodetic position is a fixed point of the loop "
+              "body of cart2geodetic and every fixed point maps back to (x,y,z) exactly, the loop stops at an iterate, the "
+              "spherical short cut is exact; geocentricposlos2cart / cartposlos2geocentric return zenith and azimuth; the distances "
+              "are symmetric, zero iff coincident, bounded, invariant under a common longitude shift, obey the triangle inequality "
+              "(chord and great-circle arc, the latter via the Gram determinant), and chord = 2R sin(arc/2R). NOT proved (named gap "
+              "iteration_accuracy): the contraction bound turning the 1e-12 rad stop criterion into < 1 cm / 1e-7 deg - that accuracy "
+              "rests on scalar-call sweeps over all models; the stop criterion is enclosed in Coq at every sampled output. Tie: "
+              "translation + interval enclosures (the hand model of the loop, tunnel and LOS code is tied by enclosures only) + a "
+              "numeric law sweep with longdouble oracles."),
+        note=COMMON_NOTE + " Translator trusted (mitigated by enclosures); numpy broadcasting and IEEE rounding bridged pointwise; cart2geocentric with optional arguments, the pole branch of geocentricposlos2cart and the za0/aa0 branch are outside the model (the property excludes the singular cases); real-number axioms, classic, funext in Print Assumptions.",
+        technique="Coq proof over R on definitions translated from the source on every run (trigonometric case analysis, field/nra/interval) + hand model of the cart2geodetic loop and LOS conversions + interval enclosures + numeric law sweep",
+        design="5/C07"),
 }
 
 
